@@ -231,3 +231,32 @@ def run_floatdiv(ctx, rep, cfg="Q", rule="FLOAT-DIV", floor=8):
                 rep.classify(rule, key, reviewed, loc=loc,
                              detail="the divisor %s can be zero and nothing tests it: the quotient is NaN or infinite" % show(d, maxd=4)[:140])
     rep.floor(rule + " sites", n, floor)
+
+
+def run_total_exact(ctx, rep, cfg="Q", rule="TOTAL-EXACT"):
+    """Span::total without a reference: the whole number of units is an integer quotient"""
+    rep.rule(rule, "SpanTotal::total_invariant returns a float by contract, but the whole number of units it reports must be exact "
+                   "whenever it is representable: the nanosecond total is divided by the unit's nanoseconds in integers (an integer "
+                   "Div and Rem by the same divisor), and the only float division has the remainder - a value below one unit - as "
+                   "its dividend. Casting the 128-bit total to f64 first loses its low bits above 2^53 ns (104 days), so "
+                   "20_496_383.hours().total(Hour) came out as 20496383.000000004")
+    prog = ctx.prog(cfg)
+    f = prog.fns.get("jiff::span::SpanTotal::<'a>::total_invariant")
+    if f is None:
+        rep.anchor_missing("span::SpanTotal::total_invariant")
+        return
+    T = Terms(f)
+    fdivs = [(bi, si, s) for bi, b in enumerate(f.blocks) for si, s in enumerate(b["st"])
+             if s["s"] == "=" and s["rv"]["k"] == "bin" and s["rv"]["op"] == "Div" and s["rv"].get("ty") in ("f64", "f32")]
+    if not fdivs:
+        rep.violation(rule, "total_invariant", "anchor missing: no float division found", f.loc())
+        return
+    for (bi, si, s) in fdivs:
+        dividend = T.operand(s["rv"]["a"], pos=(bi, si))
+        loc = "%s:%s" % (f.file, s.get("ln"))
+        has_rem = any(isinstance(x, tuple) and x and ((x[0] == "bin" and x[1] == "Rem") or (x[0] == "call" and re.search(r"::(rem|rem_ceil|rem_floor|rem_euclid)$", x[1]))) for x in walk(dividend))
+        if has_rem:
+            rep.ok(rule, "total_invariant", how="the float division's dividend is an integer remainder", loc=loc)
+        else:
+            rep.violation(rule, "total_invariant", "the float division's dividend is %s: the full nanosecond total is rounded to f64 before "
+                          "the division, so totals that are exact integers come out off by an ulp" % show(dividend, maxd=4)[:120], loc)
